@@ -82,6 +82,7 @@ PURE = {
              "/{{ t | concat: a | join: ',' }}/{{ n | default: 'z' | size }}",
     "nested": "{{ h.m.z | reverse | join: ',' }}/{{ h.l | sort | first }}/{% for p in h %}{{ p[0] }}{% endfor %}/{{ h.l | uniq | size }}/{{ h.m | json }}"
               "/{{ h.m.z | sort | join: ',' }}/{{ h.m.z | concat: h.l | size }}",
+    "snippet": "{% extends 'base' %}{% snippet sn %}S{{ a | first }}{% endsnippet %}{% block b %}{% render sn, a: a %}{% endblock %}",
     "inherit": "{% extends 'base' %}{% block b %}C{{ block.super }}{{ a | join: ',' }}{% endblock %}{% block d %}{{ block.super }}D{% endblock %}",
     "with": "{% with z: a, y: h %}{{ z | sort | join: ',' }}{{ y.l | reverse | join: ',' }}{% endwith %}[{{ z }}]",
     "tablerow": "{% tablerow i in a cols: 2 limit: 3 %}{{ i }}{% endtablerow %}",
@@ -185,6 +186,8 @@ class World:
             loader = (liquid.CachingDictLoader if rec["caching"] else liquid.DictLoader)(parts)
             cls = type("FlagEnvironment", (liquid.Environment,), {f: True for f in FLAGS}) if rec["flags"] else liquid.Environment
             self.envs[eid] = cls(extra=True, autoescape=rec["auto"], loader=loader, **(ALT if alt else {}))
+            from liquid.extra import SnippetTag
+            self.envs[eid].add_tag(SnippetTag)        # experimental, not registered by extra=True
         return self.envs[eid]
 
     def template(self, job):
